@@ -179,6 +179,11 @@ def rule_score(ctx):
             ctx.ob('C07.score', f'{ci.fq}:identity-semantics', not over,
                    f'{ci.qualname} defines {over}: two bundles that compare equal (same time and bytes) count as one queue item, so the second '
                    f'add() removes the first: the score drops a bundle and reorders equal-time sends', ci.node, ci.module)
+    # the score's order is the queue's iteration order: shared clause with C09.key
+    from .c09 import iter_ordered
+    it, ok = iter_ordered(repo)
+    ctx.ob('C07.score', f'{it.fq}:score-order', ok, 'the score is read out by iterating the queue, which must yield entries by '
+                                                    '(time, insertion count): equal-time bundles stay in send order', it.node, it.module)
     f = repo.func('sc3.base._oscinterface:OscScore.finish')
     body = _strip_doc(f.node.body)
     loops = [s for s in body if isinstance(s, ast.For)]
